@@ -104,23 +104,22 @@ m('c06-falsy-guard', 'C06', 'data.py', "        if not hasattr(self, '_value') o
 # (dropping OPT_SORT_KEYS is equivalent under the oracle: mapping order is a declared don't-care)
 m('c06-row-split', 'C06', 'utils/io.py', "            yield json.loads(row.strip())", "            yield json.loads(row.split()[0]) if row.split() else None")
 m('c06-glob-lexicographic', 'C06', 'data.py', "sorted(self.path.glob('*.npy'), key=lambda f: int(f.name.split('.')[0]))", "sorted(self.path.glob('*.npy'))")
-m('c06-np-float-cast', 'C06', 'data.py', "        np.save(str(self.path), self.value)", "        np.save(str(self.path), np.asarray(self.value, dtype=float) if self.value.dtype.kind == 'f' else self.value)")
+m('c06-np-float-cast', 'C06', 'data.py', "            np.save(str(path), self.value)", "            np.save(str(path), np.asarray(self.value, dtype=float) if self.value.dtype.kind == 'f' else self.value)")
 m('c06-json-ascii', 'C06', 'data.py', "        self._value = json.load(self.path.open())", "        self._value = json.load(self.path.open(encoding='latin-1'))")
 m('c06-generated-skip-none', 'C06', 'utils/io.py', "            f.write(json.dumps(j) + '\\n')", "            if j is not None:\n                f.write(json.dumps(j) + '\\n')")
-m('c06-dir-copy-flat', 'C06', 'data.py', "        shutil.move(str(self.tmp_path), str(self.path))\n        self._value = self._dir = self.path\n\n    def load(self, data_type: Type) -> Path:",
-  "        self.path.mkdir()\n        for f in self.tmp_path.iterdir():\n            if f.is_file():\n                shutil.move(str(f), str(self.path / f.name))\n        shutil.rmtree(self.tmp_path)\n        self._value = self._dir = self.path\n\n    def load(self, data_type: Type) -> Path:")
+m('c06-dir-copy-flat', 'C06', 'data.py', "    def save(self):\n        _replace_dir(self.tmp_path, self.path)\n        self._value = self._dir = self.path", "    def save(self):\n        self.path.mkdir()\n        for f in self.tmp_path.iterdir():\n            if f.is_file():\n                shutil.move(str(f), str(self.path / f.name))\n        shutil.rmtree(self.tmp_path)\n        self._value = self._dir = self.path")
 m('c06-load-touches-file', 'C06', 'data.py', "        self._value = json.load(self.path.open())\n        return self._value", "        self._value = json.load(self.path.open())\n        json.dump(self._value, self.path.open('w'), sort_keys=True)\n        return self._value")
-m('c06-pandas-csv', 'C06', 'data.py', "        self.value.to_pickle(self.path)", "        self.value.reset_index(drop=True).to_pickle(self.path) if isinstance(self.value.index, pd.RangeIndex) is False and len(self.value) == 0 else self.value.to_pickle(self.path)")
+m('c06-pandas-csv', 'C06', 'data.py', "            self.value.to_pickle(path)", "            self.value.reset_index(drop=True).to_pickle(path) if isinstance(self.value.index, pd.RangeIndex) is False and len(self.value) == 0 else self.value.to_pickle(path)")
 
 # ---- C08 -----------------------------------------------------------------------------------------------
 m('c08-no-acyclic-check', 'C08', 'chain.py', "        if not nx.is_directed_acyclic_graph(G):\n            raise ValueError('Chain is not acyclic')\n", "")
 m('c08-ignore-excluded', 'C08', 'chain.py', "                    if _task_class in excluded_tasks:\n                        return\n", "")
-m('c08-root-namespace-inputs', 'C08', 'chain.py', "                    input_task_name = (  # add current config to reference\n                        f'{task.get_config().namespace}::{input_task_name}'\n                    )", "                    pass")
+m('c08-root-namespace-inputs', 'C08', 'chain.py', "                    input_task_name = f'{namespace}::{input_task_name}'  # add current namespace to reference", "                    pass")
 m('c08-abstract-kept', 'C08', 'chain.py', "                            if task_class.meta.get('abstract', False):\n                                continue\n", "")
 m('c08-optional-swallow', 'C08', 'chain.py', "                    if not required:\n                        input_tasks[input_task_name] = default\n                        continue\n                    raise ValueError(f'Input task `{input_task_name}` of task `{task}` not found')",
   "                    input_tasks[input_task_name] = None if required else default\n                    continue")
 m('c08-ancestors-for-dependents', 'C08', 'chain.py', "        descendants = nx.descendants(self.graph, task)", "        descendants = nx.ancestors(self.graph, task)")
-m('c08-startswith-ns', 'C08', 'chain.py', "and not input_task_name.startswith(f'{task.get_config().namespace}::')", "and not input_task_name.startswith(task.get_config().namespace)")
+m('c08-startswith-ns', 'C08', 'chain.py', "namespace and not input_task_name.startswith(f'{namespace}::'):", "namespace and not input_task_name.startswith(namespace):")
 m('c08-prefix-import', 'C08', 'utils/clazz.py', "    if not has_wiled_card and parts[-1] in module.__dict__:", "    if False:")
 m('c08-first-pass-sharing', 'C08,C09', 'chain.py', "task_registry=None if self._parameter_mode else self._task_registry)", "task_registry={} if self._parameter_mode else self._task_registry)")
 # ---- C09 -----------------------------------------------------------------------------------------------
@@ -285,7 +284,7 @@ def apply_edit(scratch, mut):
     p = scratch / 'src' / 'taskchain' / mut['file']
     s = p.read_text()
     if s.count(mut['old']) < 1:
-        raise SystemExit(f"mutant {mut['id']}: pattern not found in {mut['file']}")
+        raise LookupError(f"mutant {mut['id']}: pattern not found in {mut['file']}")
     p.write_text(s.replace(mut['old'], mut['new'], mut['count']))
 
 
@@ -333,7 +332,12 @@ def main():
                     print(f"{mut['id']}: patch does not apply: {r.stderr.strip()[:300]}")
                     continue
             else:
-                apply_edit(scratch, mut)
+                try:
+                    apply_edit(scratch, mut)
+                except LookupError as e:
+                    rows.append((mut['id'], mut['prop'], '-', 'STALE-PATTERN', '-', str(e)))
+                    print(f"{mut['id']:<34} STALE: {e}", flush=True)
+                    continue
             suite = ('-', '')
             if args.suite:
                 ok, tail = run_suite(scratch)
